@@ -116,7 +116,7 @@ fn handle(name: &str, a: &[String]) -> String {
             let (sh, n) = setup(a);
             js(&vh::expand_one_env(&sh, &a[n]))
         }
-        "expand_env" | "expand_brace" | "expand_brace_range" | "expand_alias" | "expand_home" | "do_expansion" => {
+        "expand_env" | "expand_brace" | "expand_brace_range" | "expand_alias" | "expand_home" | "do_expansion" | "do_command_substitution" | "expand_glob" => {
             let (mut sh, n) = setup(a);
             let mut t = tokens_from(&a[n..]);
             match name {
@@ -125,6 +125,8 @@ fn handle(name: &str, a: &[String]) -> String {
                 "expand_brace_range" => vh::expand_brace_range(&mut t),
                 "expand_alias" => vh::expand_alias(&sh, &mut t),
                 "expand_home" => vh::expand_home(&mut t),
+                "do_command_substitution" => vh::do_command_substitution(&mut sh, &mut t),
+                "expand_glob" => vh::expand_glob(&mut t),
                 _ => vh::do_expansion(&mut sh, &mut t),
             }
             jtokens(&t)
